@@ -248,3 +248,18 @@ prop("C20", level="exploration", bounded=True,
           "coordToHandle's binary search uses float division and math.ceil and is interleaved with cache/statistics dictionary updates.",
      note="Exploration level. getSize is checked for leaf fibers only (for interior fibers the statement's 'payload entries' is ambiguous between child handles and none).",
      trusted_base=[])
+
+prop("C17", level="exploration", bounded=True,
+     technique="bounded: policy oracles computed independently from the traces (distinct (line, window) pairs; exhaustive optimal replacement with bypass)",
+     text="Bounded (not proved): seeded well-formed read and read+write traces over loop ranks (M, K) with <= 6 (quick) / <= 8 (thorough) rows over <= 4 "
+          "positions, bindings evict-on root and evict-on M, lines of 1 and 2 elements. Buffet: fills == distinct (line, eviction-window) pairs whose "
+          "first access is a read, write-backs == pairs containing a write with staging-area writes (position >= shape) excluded. Cache: fills == the "
+          "minimum over ALL replacement/bypass decision sequences (exhaustive search with memoisation) at every capacity from 0 to all lines in "
+          "half-line steps, plus the distinct-lines / accesses bounds and monotonicity in capacity. filterTrace == point-membership filter on "
+          "concordant traces; directory listing identical before and after each call. Proved core: the cache model's candidate order "
+          "(ListElem.__eq__/__lt__: lexicographic on the next-use stamp, then binding position). The models themselves stream CSV files backwards "
+          "through FileReadBackwards/SortedList with policy callbacks: outside pyvc's subset, and optimality is an exchange argument over whole "
+          "traces that no per-function contract expresses.",
+     note="Exploration level. Stamps over two loop ranks in the proved core.",
+     also=["ListElem"],
+     trusted_base=[])
